@@ -72,9 +72,10 @@ type Contract struct {
 	Uses     []string // callback contracts: caller variables visible to the contract
 	Interf   []string // locations other goroutines may change while the call blocks (lock acquisition)
 	Sites    map[string][]*SiteAnn
-	Assumed  []string // free-text assumptions made by this contract (listed in evidence)
-	NoNilFn  bool     // function values called in the body are assumed non-nil (recorded in Assumed)
-	NoFrame  bool     // the modifies clause is used at call sites but not checked against the body
+	Assumed  []string    // free-text assumptions made by this contract (listed in evidence)
+	NoNilFn  bool        // function values called in the body are assumed non-nil (recorded in Assumed)
+	NoFrame  bool        // the modifies clause is used at call sites but not checked against the body
+	Given    []GhostDecl // scenario contracts (key "func@name"): universally quantified scenario variables
 }
 
 // SiteAnn is an annotation attached to the k-th call (source order) whose callee expression reads Text.
@@ -346,6 +347,12 @@ func (ss *SpecSet) parseFile(path string, dep bool) error {
 				cur.Params = splitLocs(rest)
 			case "uses":
 				cur.Uses = splitLocs(rest)
+			case "given":
+				f := strings.SplitN(rest, " ", 2)
+				if len(f) != 2 {
+					return fmt.Errorf("%s:%d: given <name> <sort>", path, ln+1)
+				}
+				cur.Given = append(cur.Given, GhostDecl{Name: f[0], Sort: strings.TrimSpace(f[1])})
 			case "interference":
 				cur.Interf = append(cur.Interf, splitLocs(rest)...)
 			case "at":
@@ -367,7 +374,7 @@ func (ss *SpecSet) parseFile(path string, dep bool) error {
 					}
 					ann.Ghost = strings.TrimSpace(body[:eq])
 					body = strings.TrimSpace(body[eq+1:])
-				} else if f[1] != "assert" && f[1] != "ensure" {
+				} else if f[1] != "assert" && f[1] != "ensure" && f[1] != "assume" {
 					return fmt.Errorf("%s:%d: at <site> assert|set ...", path, ln+1)
 				}
 				c, err := mkClause("site-"+f[1], body)
